@@ -5,6 +5,7 @@
 #define _GNU_SOURCE
 #include <errno.h>
 #include <pthread.h>
+#include <reproc/drain.h>
 #include <reproc/reproc.h>
 #include <signal.h>
 #include <stdio.h>
@@ -38,6 +39,40 @@ static void *independent(void *arg)
   if (n != 5 || memcmp(buf, data, 5) || st != 10 + id) __atomic_add_fetch(&failures, 1, __ATOMIC_RELAXED);
   const char *s = reproc_strerror(id == 1 ? REPROC_EPIPE : REPROC_ENOMEM);
   if (!s || !*s) __atomic_add_fetch(&failures, 1, __ATOMIC_RELAXED);
+  reproc_destroy(p);
+  return NULL;
+}
+
+struct dctx { int id; size_t n; int wrong; };
+
+static int check_sink(REPROC_STREAM stream, const uint8_t *buffer, size_t size, void *context)
+{
+  struct dctx *d = context;
+  if (stream != REPROC_STREAM_OUT) return 0;
+  for (size_t i = 0; i < size; i++)
+    if (buffer[i] != (uint8_t) ('a' + d->id)) d->wrong++;
+  d->n += size;
+  return 0;
+}
+
+/* each thread drains its own child, which prints 64 KiB of its own letter once its stdin is closed */
+static void *drained(void *arg)
+{
+  int id = (int) (long) arg;
+  char code[96];
+  snprintf(code, sizeof code, "cat >/dev/null; head -c 65536 /dev/zero | tr '\\0' '%c'; exit %d", 'a' + id, 20 + id);
+  const char *argv[] = { "/bin/sh", "-c", code, NULL };
+  reproc_t *p = reproc_new();
+  reproc_options o;
+  memset(&o, 0, sizeof o);
+  int r = reproc_start(p, argv, o);
+  if (r < 0) { __atomic_add_fetch(&failures, 1, __ATOMIC_RELAXED); reproc_destroy(p); return NULL; }
+  reproc_close(p, REPROC_STREAM_IN);
+  struct dctx d = { id, 0, 0 };
+  reproc_sink sk = { check_sink, &d };
+  r = reproc_drain(p, sk, REPROC_SINK_NULL);
+  int st = reproc_wait(p, REPROC_INFINITE);
+  if (r != 0 || d.n != 65536 || d.wrong || st != 20 + id) __atomic_add_fetch(&failures, 1, __ATOMIC_RELAXED);
   reproc_destroy(p);
   return NULL;
 }
@@ -85,6 +120,10 @@ int main(int argc, char **argv)
     pthread_join(a, NULL);
     pthread_join(b, NULL);
     pthread_join(c, NULL);
+    pthread_create(&a, NULL, drained, (void *) 1L);
+    pthread_create(&b, NULL, drained, (void *) 2L);
+    pthread_join(a, NULL);
+    pthread_join(b, NULL);
     const char *cat[] = { "/bin/cat", NULL };
     shared = reproc_new();
     reproc_options o;
